@@ -21,7 +21,7 @@ def digests(prop, n, base):
     for scen, (gen, _run) in mod.SCENARIOS.items():
         for i in range(n):
             seed = rng.sub_seed(base, f'det/{prop}/{scen}/{i}')
-            case = gen(rng.derive(seed, 'gen'), 'quick', seed)
+            case = gen(rng.derive(seed, 'gen'), 'quick', seed, i) if getattr(gen, 'wants_index', False) else gen(rng.derive(seed, 'gen'), 'quick', seed)
             case['scenario'] = scen
             case['seed'] = seed
             case = runner.normalise(case)
